@@ -554,3 +554,25 @@ func TestK26_SplitRunsAdoptedVerbatim(t *testing.T) {
 		got.Flip(20, 22)
 	}()
 }
+
+// #27 C08: CloneCopyOnWriteContainers on a roaring64 bitmap made by FromUnsafeBytes must detach it from the buffer.
+func TestD27_CloneCopyOnWriteContainers64Detaches(t *testing.T) {
+	orig := roaring64.New()
+	orig.AddMany([]uint64{1, 2, 3, 1<<32 | 7})
+	orig.AddRange(100000, 110000)
+	data, err := orig.ToBytes()
+	if err != nil {
+		t.Fatal(err)
+	}
+	z := roaring64.New()
+	if _, err := z.FromUnsafeBytes(data); err != nil {
+		t.Fatal(err)
+	}
+	z.CloneCopyOnWriteContainers()
+	for i := range data {
+		data[i] = 0xFF
+	}
+	if !z.Equals(orig) {
+		t.Fatalf("the bitmap still reads the input buffer after CloneCopyOnWriteContainers: cardinality %d, want %d", z.GetCardinality(), orig.GetCardinality())
+	}
+}
